@@ -5,7 +5,7 @@ obligation streams by position and rewrites the dict literals in the rule module
 import ast, importlib, os, re, subprocess, sys, json
 VERIF = os.path.dirname(os.path.dirname(os.path.abspath(__file__)))
 sys.path.insert(0, VERIF)
-MODS = {'c08': 'AUDIT', 'c09': 'PO5_AUDIT', 'c11': 'AUDIT', 'c12': 'AUDIT', 'c19': 'PO6_AUDIT', 'c14': 'round2:PO8_AUDIT', 'c04': 'round4:PO9_AUDIT'}
+MODS = {'c08': 'AUDIT', 'c09': 'PO5_AUDIT+round5:PO10_AUDIT', 'c11': 'AUDIT', 'c12': 'AUDIT', 'c19': 'PO6_AUDIT', 'c14': 'round2:PO8_AUDIT', 'c04': 'round4:PO9_AUDIT'}
 
 WORKER = r'''
 import sys, json
@@ -54,28 +54,29 @@ for m, var in MODS.items():
                 mapping[k0].append(k1)
         elif ka == 'bad':
             print('old scheme already bad:', m, keya)
-    holder = m
-    if ':' in var:
-        holder, var = var.split(':')
-    mod = importlib.import_module('rules.' + holder)
-    table = getattr(mod, var)
-    newtable = {}
-    for k, v in table.items():
-        nks = mapping.get(k)
-        if nks is None:
-            print('UNUSED audit entry kept as is:', m, k)
-            nks = [k]
-        for nk in nks:
-            if nk in newtable and newtable[nk] != v:
-                print('MERGED', m, nk)
-            newtable[nk] = v
-    path = os.path.join(VERIF, 'rules', holder + '.py')
-    src = open(path).read()
-    tree = ast.parse(src)
-    node = [n for n in tree.body if isinstance(n, ast.Assign) and any(isinstance(t, ast.Name) and t.id == var for t in n.targets)][0]
-    lines = src.split('\n')
-    body = var + ' = {\n' + ''.join('    %r:\n        %r,\n' % (k, v) for k, v in newtable.items()) + '}'
-    lines[node.lineno - 1:node.end_lineno] = body.split('\n')
-    open(path, 'w').write('\n'.join(lines))
-    changed = sum(1 for k in table if mapping.get(k, [k]) != [k])
-    print('%s: %d entries, %d re-keyed' % (m, len(table), changed))
+    for var in var.split('+'):
+        holder = m
+        if ':' in var:
+            holder, var = var.split(':')
+        mod = importlib.import_module('rules.' + holder)
+        table = getattr(mod, var)
+        newtable = {}
+        for k, v in table.items():
+            nks = mapping.get(k)
+            if nks is None:
+                print('UNUSED audit entry kept as is:', m, k)
+                nks = [k]
+            for nk in nks:
+                if nk in newtable and newtable[nk] != v:
+                    print('MERGED', m, nk)
+                newtable[nk] = v
+        path = os.path.join(VERIF, 'rules', holder + '.py')
+        src = open(path).read()
+        tree = ast.parse(src)
+        node = [n for n in tree.body if isinstance(n, ast.Assign) and any(isinstance(t, ast.Name) and t.id == var for t in n.targets)][0]
+        lines = src.split('\n')
+        body = var + ' = {\n' + ''.join('    %r:\n        %r,\n' % (k, v) for k, v in newtable.items()) + '}'
+        lines[node.lineno - 1:node.end_lineno] = body.split('\n')
+        open(path, 'w').write('\n'.join(lines))
+        changed = sum(1 for k in table if mapping.get(k, [k]) != [k])
+        print('%s: %d entries, %d re-keyed' % (m, len(table), changed))
